@@ -56,10 +56,13 @@ class Gen:
             for i in range(1, k):
                 if r.random() < 0.4:
                     names[i] = names[i - 1] + r.choice(["'", "†", "_x"])
-        inputs = self.forced_inputs or (["A", "B"] if r.random() < 0.6 else ["A"])
+        pool_names = ["A", "B", "H", "K", "beta", "Delta", "H_t", "V0", "a_0"]
+        first = r.choice(pool_names)
+        second = r.choice([n for n in pool_names if n != first])
+        inputs = self.forced_inputs or ([first, second] if r.random() < 0.6 else [first])
         start, marker = {}, {}
         for n in names:
-            start[n] = r.choice([0, 0, 0, 0, 1, '"A_0"', '"%s_0"' % inputs[-1], None, None])
+            start[n] = r.choice([0, 0, 0, 0, 1, '"%s_0"' % inputs[0], '"%s_0"' % inputs[-1], None, None])
             marker[n] = r.choice([None, None, None, "hermitian", "antihermitian"])
         # adjoint twins:  Sd = S.adj  (gives structurally Hermitian products Sd @ S)
         twins = {}
@@ -139,7 +142,7 @@ class Gen:
         if r.random() < 0.3:
             # a once-used intermediate with start data and its single, start-less consumer (eviction at every order)
             sp, sq = f"S{k}", f"S{k + 1}"
-            st = r.choice([0, '"A_0"', '"A_0"'])
+            st = r.choice([0, '"%s_0"' % inputs[0], '"%s_0"' % inputs[-1]])
             sq_start = r.choice([None, None, 1])  # a `start = 1` reader evaluates its off-diagonal zeroth order too
             lines += [f'    with "{sp}":', f"        start = {st}", f"        {self.expr(k, 1, False)}",
                       f'    with "{sq}":'] + ([f"        start = {sq_start}"] if sq_start else []) + [
@@ -253,7 +256,7 @@ class Prop:
     probes = ["family_G", "family_T", "family_S", "compared", "value_nonzero", "internal_after_output", "product_requested",
               "hermitian_product", "marker_hermitian", "marker_antihermitian", "clause_diagonal", "clause_offdiagonal",
               "clause_lower", "fn_call", "fn_series_arg", "division", "ifexp", "start_one", "start_input", "start_none",
-              "two_block_optimized", "commuting_false", "offdiag_present", "program_rejected", "prelude_program", "hermitian_product_3", "linear_operator_mode", "family_F", "flags_clause_checked", "slice_request", "domain_float", "eviction_observed",
+              "two_block_optimized", "commuting_false", "offdiag_present", "program_rejected", "prelude_program", "hermitian_product_3", "linear_operator_mode", "family_F", "flags_clause_checked", "slice_request", "domain_float", "linear_operator_mode_generated", "eviction_observed",
               "recompute_after_eviction"]
     components_real = ["pymablock.algorithm_parsing (compiler, series_computation), pymablock.series, pymablock.algorithms, "
                        "block_diagonalize wiring of scope (family S)"]
@@ -317,7 +320,11 @@ class Prop:
         outs = [ln for ln in src.splitlines() if ln.strip().startswith("return")][0]
         outputs = [s.strip().strip('"') for s in outs.replace("return", "").split(",") if s.strip()]
         case = {"family": "G", "src": src, "nb": nb, "ninf": ninf, "cap": cap,
-                "domain": "float" if r.random() < 0.25 else "tracer", "sizes": [r.choice([1, 2]) for _ in range(3)],
+                "domain": "float" if r.random() < 0.3 else "tracer", "sizes": [r.choice([1, 2]) for _ in range(3)],
+                # the last diagonal block is kept as a LinearOperator; only for programs whose declared products have two factors
+                # (like the shipped algorithms): an intermediate of a longer plain product would add operators and matrices
+                "linop_mask": True if (r.random() < 0.5 and all(p.count("@") == 1 for p in products)) else None,
+                "scaled_op": r.random() < 0.5,
                 "inputs": {n: {"pz": r.choice([0.0, 0.2, 0.5]), "zero0": r.random() < 0.3, "iseed": r.randrange(1 << 30)} for n in inputs},
                 "flag": r.random() < 0.5, "flags": [r.random() < 0.5 for _ in range(nb)]}
         case["ops"] = self._schedule(r, inputs + names + products, outputs, nb, ninf, cap, tier)
@@ -450,7 +457,7 @@ class Prop:
         out0 = None
         if pre and case["family"] == "G":
             sub = {k: v for k, v in case.items() if k != "prelude"}
-            sub.update(src=pre["src"], ops=pre["ops"])
+            sub.update(src=pre["src"], ops=pre["ops"], linop_mask=None)
             if pre.get("nb"):
                 sub.update(nb=pre["nb"], flags=[bool(k % 2) for k in range(pre["nb"])])
             shared = {}  # the caller reuses one scope dictionary for both computations
@@ -494,12 +501,26 @@ class Prop:
                 if floats:
                     bump("domain_float")
 
+                def dense(v):
+                    from scipy.sparse.linalg import LinearOperator
+
+                    return v @ np.eye(v.shape[1]) if isinstance(v, LinearOperator) else v
+
+                def aslinop(a):
+                    from scipy.sparse.linalg import aslinearoperator
+
+                    return aslinearoperator(a)
+
                 def f(x, index):
                     v = x[index] if isinstance(x, (BlockSeries, refdsl.Handle)) else x
                     if v is zero:
                         return zero
                     if floats:  # mutable matrix values: a non-linear elementwise map, never in place
-                        return zero if v is one else v / (1.0 + np.abs(v)) * (0.7 + 0.2j)
+                        if v is one:
+                            return zero
+                        d_ = dense(v)
+                        out = d_ / (1.0 + np.abs(d_)) * (0.7 + 0.2j)
+                        return aslinop(out) if d_ is not v else out  # operators in, operators out
                     if v is one:
                         return T.gen("f(one)")
                     return T.fun("f", v, int(index[0]), int(index[1]))
@@ -511,11 +532,21 @@ class Prop:
                     if v is zero or v is one:
                         return zero
                     if floats:
-                        return (v.conj().T if series_arg else v) * 0.5
+                        d_ = dense(v)
+                        out = (d_.conj().T if series_arg else d_) * 0.5
+                        return aslinop(out) if d_ is not v else out
                     return T.fun("g", v)
 
                 scope = {"f": f, "g": g, "flag": flag, "flags": list(case["flags"])}
                 specs = case["inputs"]
+                if floats and case.get("linop_mask"):
+                    # linear-operator mode for some blocks (what the implicit method uses), with a caller-supplied product
+                    mask = np.zeros((nb, nb), dtype=bool)
+                    mask[-1, -1] = True
+                    scope["use_linear_operator"] = mask
+                    bump("linear_operator_mode_generated")
+                if floats and case.get("scaled_op"):
+                    matmul = lambda a, b: 2.0 * (a @ b)  # noqa: E731 - a product that is not plain matmul
             else:
                 algo = getattr(algorithms, case["algo"])
                 src = None
@@ -632,6 +663,9 @@ class Prop:
                 cells = [request]
             if not cells or any(sum(c[2:]) > case["cap"] for c in cells):
                 continue
+            if fam == "G" and case.get("domain") == "float" and case.get("linop_mask") and " @ " in name and any(
+                    c[0] == nb - 1 and c[1] == nb - 1 for c in cells):
+                continue  # operator + matrix sums are not defined: the compiled code reads the operator twin of a product there
             index = cells[0]
             try:
                 wants = [ref.value(name, c) for c in cells]
